@@ -129,6 +129,11 @@ func (p *Program) ApplyEdit(hasAddFile, hasDelFile bool) *Edit {
 		fd := &FieldDef{ID: id, Name: fmt.Sprintf("added%d", id), Type: &TypeRef{Base: baseTypes[ch("edit.base", len(baseTypes))]}, Req: ReqOptional}
 		if kind == "add-required-field" {
 			fd.Req = ReqRequired
+		} else if simrt.Flip("edit.optional-default", 0.3) {
+			fd.Default = p.genValue(f, fd.Type, Options{}, 1)
+			if p.KindOf(fd.Type) == "binary" {
+				fd.Default = nil
+			}
 		}
 		pos := ch("edit.pos", len(s.Fields)+1)
 		s.Fields = append(s.Fields[:pos:pos], append([]*FieldDef{fd}, s.Fields[pos:]...)...)
